@@ -55,11 +55,11 @@ def parse_pretty(out, paths, texts):
         f = re.match(r"^ in file: (.*)$", lines[1]) if len(lines) > 1 else None
         if not m or not f:
             res.append({"level": "?", "title": b[:60], "file": "?", "line": -1, "c0": -1, "c1": -1,
-                        "excerpt": [], "marker": [], "srcline": [], "shown_line": -1, "crlf": False})
+                        "excerpt": [], "marker": [], "srcline": [], "shown_line": -1, "crlf": False, "gutter_delta": 0})
             continue
         fname = paths.get(f.group(1), f.group(1))
         d = {"level": m.group(1), "title": m.group(2), "file": fname, "line": -1, "c0": -1, "c1": -1,
-             "excerpt": [], "marker": [], "srcline": [], "shown_line": -1, "crlf": False}
+             "excerpt": [], "marker": [], "srcline": [], "shown_line": -1, "crlf": False, "gutter_delta": 0}
         if len(lines) >= 5:
             ex = re.match(r"^ (\d+) \| (.*)$", lines[3])
             mk = re.match(r"^ +\| (.*)$", lines[4])
@@ -67,6 +67,8 @@ def parse_pretty(out, paths, texts):
                 d["shown_line"] = int(ex.group(1))
                 d["excerpt"] = cps(ex.group(2))
                 d["marker"] = cps(mk.group(1))
+                # absolute columns: the text after the gutter must start at the same column in both rows
+                d["gutter_delta"] = (len(lines[4]) - len(mk.group(1))) - (len(lines[3]) - len(ex.group(2)))
         res.append(d)
     return res
 
@@ -176,7 +178,7 @@ def run(tier, replay=None):
                     if "^" in mk:
                         drec["c0"] = lead + mk.index("^")
                         drec["c1"] = lead + len(mk) - 1
-                    for kk in ("excerpt", "marker", "srcline", "shown_line", "crlf"):
+                    for kk in ("excerpt", "marker", "srcline", "shown_line", "crlf", "gutter_delta"):
                         drec.pop(kk, None)
                 return ps
             hidden = re.search(r"(\d+) diagnostics? found in other files", comp)
